@@ -182,7 +182,7 @@ def run(ctx):
         if sorted(exported) != sorted(SHORTCUTS):
             ctx.violation("shortcut-set-differs", "top-level tag shortcuts are %r" % sorted(exported), {"exported": sorted(exported)})
         ctx.notes["shortcuts"] = n_short
-    n_random = 1000 if ctx.thorough else 30
+    n_random = 16000 if ctx.thorough else 30
     per_fn = max(1, n_random // ctx.nshards) if ctx.thorough else n_random
     for modname, fs in (("tags", hf), ("svg", sf)):
         for i, (name, f) in enumerate(fs):
